@@ -102,6 +102,13 @@ def _get_type_array_from_str(string):
         return complex
     return None
 
+def _tokens2array(tokens, dtype):
+    # numbers that do not fit the requested type (e.g. an integer literal beyond 64 bits) are reported like any other unparsable text
+    try:
+        return np.array(tokens, dtype=dtype)
+    except OverflowError as e:
+        raise ValueError(f'The string contains a number that is too large to be converted: {e}') from e
+
 def str2array(string: str, dtype: bool | int | float | complex | None = None): 
     r"""
     Converts a string to array of numbers. Use comma (``,``) or whitespace (`` ``) as element separators and semicolon (``;``) as row separator.
@@ -165,9 +172,9 @@ def str2array(string: str, dtype: bool | int | float | complex | None = None):
         if dtype == int or dtype==float or dtype==complex: 
             strings = string.split(';')
             if len(strings) == 1:
-                arr = np.array(re.split(r'[,\s]+', strings[0].strip()), dtype=dtype)
+                arr = _tokens2array(re.split(r'[,\s]+', strings[0].strip()), dtype)
             else:
-                arr = np.array([re.split(r'[,\s]+', item.strip()) for item in strings], dtype=dtype)
+                arr = _tokens2array([re.split(r'[,\s]+', item.strip()) for item in strings], dtype)
         else:
             strings = string.replace(' ', '').replace(',', '').split(';')
             if len(strings) == 1:
@@ -178,16 +185,16 @@ def str2array(string: str, dtype: bool | int | float | complex | None = None):
     elif _dtype == int or _dtype==float:
         strings = string.split(';')
         if len(strings) == 1:
-            arr = np.array(re.split(r'[,\s]+', strings[0].strip()), dtype=_dtype)
+            arr = _tokens2array(re.split(r'[,\s]+', strings[0].strip()), _dtype)
         else:
-            arr = np.array([re.split(r'[,\s]+', item.strip()) for item in strings], dtype=_dtype)
+            arr = _tokens2array([re.split(r'[,\s]+', item.strip()) for item in strings], _dtype)
 
     elif _dtype == complex:
         strings = string.replace('i','j').split(';')
         if len(strings) == 1:
-            arr = np.array(re.split(r'[,\s]+', strings[0].strip()), dtype=_dtype)
+            arr = _tokens2array(re.split(r'[,\s]+', strings[0].strip()), _dtype)
         else:
-            arr = np.array([re.split(r'[,\s]+', item.strip()) for item in strings], dtype=_dtype)
+            arr = _tokens2array([re.split(r'[,\s]+', item.strip()) for item in strings], _dtype)
 
     else:
         raise ValueError('The string contains invalid characters and can\'t be converted to an array.')
